@@ -348,6 +348,10 @@ func (s *Server) handleGetExport(w http.ResponseWriter, r *http.Request) {
 func (s *Server) handlePostHalt(w http.ResponseWriter, r *http.Request) {
 	q := r.URL.Query()
 	name := q.Get("name")
+	if name == "" {
+		Error(w, r, fmt.Errorf("name required"), http.StatusBadRequest)
+		return
+	}
 	lockID, err := strconv.ParseInt(q.Get("id"), 10, 64)
 	if err != nil {
 		Error(w, r, fmt.Errorf("invalid id: %q", q.Get("id")), http.StatusBadRequest)
